@@ -157,8 +157,8 @@ class Gen(object):
     def select(self):
         d = self.d
         kids = []
-        for _ in range(d.below(4)):
-            if d.chance(1, 4):
+        for _ in range(d.below(5)):
+            if d.chance(2, 5):
                 opts = [self.option() for _ in range(d.below(3))]
                 kids.append(E("optgroup", self.attrs("optgroup", ["label"]), self._ws_between(opts)))
             else:
